@@ -207,6 +207,18 @@ func PrepareQuery(ctx context.Context, typ Type, selectionSet *SelectionSet) err
 					return NewClientError(`error parsing args for "%s": %s`, selection.Name, err)
 				}
 				selection.Args = parsed
+				selection.parsedFor = field
+			} else if selection.parsedFor != nil && selection.parsedFor != field {
+				// The selection belongs to a fragment that is spread under several types:
+				// the arguments parsed for the first field are handed to this field's
+				// resolver too, so this field must take the same arguments.
+				parsed, err := field.ParseArguments(selection.UnparsedArgs)
+				if err != nil {
+					return NewClientError(`error parsing args for "%s": %s`, selection.Name, err)
+				}
+				if reflect.TypeOf(parsed) != reflect.TypeOf(selection.Args) {
+					return NewClientError(`field "%s" is selected through one fragment on types whose arguments differ`, selection.Name)
+				}
 			}
 
 			selection.ParentType = typ.Name
